@@ -204,11 +204,12 @@ def subtreeAt : XTree → List Nat → Option XTree
     | none => none
 
 /-- `EtreeDocumentNode.string_value` (after fix 9a93be5): the element (and text) children only -/
-def docStringValue (kids : List PNode) : String :=
-  concat (kids.filterMap fun
-    | .elem _ _ _ _ sv _ => some sv
-    | .text _ s => some s
-    | _ => none)
+def svOfChild : PNode → Option String
+  | .elem _ _ _ _ sv _ => some sv
+  | .text _ s => some s
+  | _ => none
+
+def docStringValue (kids : List PNode) : String := concat (kids.filterMap svOfChild)
 
 /-- `build_node_tree` (xml.etree): tree_builders.py:102-135, 174-184 -/
 def buildET (i : Input) : Except Err PNode :=
@@ -337,7 +338,9 @@ def sortByPos (nodes : List Rec) (l : List Nat) : List Nat :=
 
 /-- `set(xs)`: one representative per identity; the enumeration order of a Python set is arbitrary,
 the theorems quantify over every permutation of this list -/
-def toSet (l : List Nat) : List Nat := l.eraseDups
+def toSet : List Nat → List Nat
+  | [] => []
+  | a :: l => if l.contains a then toSet l else a :: toSet l
 
 def opUnion (nodes : List Rec) (xs ys : List Nat) : List Nat :=
   sortByPos nodes (toSet (xs ++ ys))                       -- _xpath1_operators.py:259-264
